@@ -66,12 +66,131 @@ def check_matrix(run, tag, res, q, desc, window=None, sum_tol=1e-9, known_key=No
     return ok
 
 
+class Untranslatable(Exception):
+    pass
+
+
+NSIGMA_TRY = "try:\n    nsigma_low, nsigma_high = nsigma\nexcept TypeError:\n    nsigma_low = nsigma_high = nsigma"
+
+
+def _translate_resolution():
+    """resolution.bin_edges, pinhole_resolution, _q_perp_weights and apply_resolution_matrix of the current tree,
+    evaluated symbolically (harness/nptrans.py): element formulas of the edges, of the un-normalised pinhole weight,
+    the normalisation by the column sum, the slit-length weights and the dot product that applies a matrix."""
+    import ast
+    import os
+    from . import nptrans
+    path = os.path.join(common.REPO, "sasmodels", "resolution.py")
+    out = {}
+    try:
+        # ---- bin_edges: guard + hstack of [first, mids, last]
+        _, body = nptrans.function_body(path, "bin_edges")
+        if len(body) != 3 or not isinstance(body[0], ast.If) or not isinstance(body[0].body[0], ast.Raise) or body[0].orelse \
+                or ast.unparse(body[0].test) != "len(x) < 2 or (np.diff(x) < 0).any()":
+            raise Untranslatable("bin_edges: the guard on short / decreasing input changed")
+        st = body[1]
+        if not (isinstance(st, ast.Assign) and ast.unparse(st.targets[0]) == "edges" and isinstance(st.value, ast.Call)
+                and ast.unparse(st.value.func) == "np.hstack" and len(st.value.args) == 1 and isinstance(st.value.args[0], ast.List)
+                and len(st.value.args[0].elts) == 3 and ast.unparse(body[2]) == "return edges"):
+            raise Untranslatable("bin_edges: not an hstack of first edge, mid points, last edge")
+        ev = nptrans.Evaluator({"x": ("i",)})
+        first, mid, last = [ev.ev(n) for n in st.value.args[0].elts]
+        if first.axes != () or last.axes != () or mid.axes != ("i",):
+            raise Untranslatable("bin_edges: shapes of the three pieces")
+        out["edge_first"], out["edge_mid"], out["edge_last"] = first.e, mid.e, last.e
+        # ---- pinhole_resolution
+        _, body = nptrans.function_body(path, "pinhole_resolution")
+        txt = [ast.unparse(b) for b in body]
+        if txt[0] != "edges = bin_edges(q_calc)":
+            raise Untranslatable("pinhole_resolution: edges are not bin_edges(q_calc)")
+        if NSIGMA_TRY not in txt:
+            raise Untranslatable("pinhole_resolution: nsigma is not unpacked as (low, high) or one number")
+        rest = [b for b, t in zip(body[1:], txt[1:]) if t != NSIGMA_TRY]
+        ev = nptrans.Evaluator({"edges": ("i",), "q_calc": ("i",), "q": ("j",), "q_width": ("j",), "nsigma_low": (), "nsigma_high": ()},
+                               leaf_calls={"erf": "cdf"})
+        ev.run(rest)
+        if ev.returned is None or ev.returned.axes != ("i", "j"):
+            raise Untranslatable("pinhole_resolution does not return a (q_calc, q) matrix")
+        r = ev.returned.e
+        if not (r[0] == "bin" and r[1] == "/" and r[3] == ("sum", "i", r[2])):
+            raise Untranslatable("pinhole_resolution: the result is not weights / sum over q_calc of the same weights")
+        out["pin_elem"] = r[2]
+        arg = ev.leaf_args.get("cdf")
+        if arg is None or arg[0] != ("i", "j"):
+            raise Untranslatable("pinhole_resolution: erf is not evaluated on the (edge, q) grid")
+        out["cdf_arg"] = arg[1]
+        # ---- _q_perp_weights
+        _, body = nptrans.function_body(path, "_q_perp_weights")
+        ev = nptrans.Evaluator({"q_edges": ("i",), "qi": (), "w": ()})
+        ev.run(body)
+        if ev.returned is None or ev.returned.axes != ("i",):
+            raise Untranslatable("_q_perp_weights does not return a vector over the bins")
+        out["perp"] = ev.returned.e
+        # ---- apply_resolution_matrix
+        _, body = nptrans.function_body(path, "apply_resolution_matrix")
+        ev = nptrans.Evaluator({"weight_matrix": ("i", "j"), "theory": ("i",)})
+        ev.run(body)
+        if ev.returned is None or ev.returned.axes != ("j",):
+            raise Untranslatable("apply_resolution_matrix does not return one value per data point")
+        out["apply"] = ev.returned.e
+        return out
+    except nptrans.Untranslatable as exc:
+        raise Untranslatable(str(exc))
+
+
+def gen():
+    """Regenerate Gen/C03_code.v from the text of sasmodels/resolution.py."""
+    import os
+    from . import nptrans
+    head = ["(* GENERATED by harness/c03.py from sasmodels/resolution.py (bin_edges, pinhole_resolution, _q_perp_weights, apply_resolution_matrix) *)",
+            "From Coq Require Import List Bool.", "Import ListNotations.", "From SM Require Import Base.Num C03.Model.", ""]
+    note, defs = None, None
+    try:
+        t = _translate_resolution()
+        lits = {"0.5": "half"}
+        sh = lambda name, k: (name, (("i", k),))
+        c = lambda e, names, **kw: nptrans.coq(e, names, lits, **kw)
+        defs = [
+            "  Definition code_edge_first (x0 x1 : T) : T := %s." % c(t["edge_first"], {("x[0]", ()): "x0", ("x[1]", ()): "x1"}),
+            "  Definition code_edge_mid (a b : T) : T := %s." % c(t["edge_mid"], {("x", ()): "a", sh("x", 1): "b"}),
+            "  Definition code_edge_last (xp xl : T) : T := %s." % c(t["edge_last"], {("x[-1]", ()): "xl", ("x[-2]", ()): "xp"}),
+            "  Definition code_cdf_arg (edge q sigma : T) : T := %s." % c(t["cdf_arg"], {("edges", ()): "edge", ("q", ()): "q", ("q_width", ()): "sigma",
+                                                                                     ("call:sqrt", (repr(("num", "2.0")),)): "sqrt2"}),
+            "  Definition code_pin_elem (qc q sigma nlo nhi c0 c1 : T) : T := %s." % c(t["pin_elem"], {("q_calc", ()): "qc", ("q", ()): "q", ("q_width", ()): "sigma",
+                                                                                              ("nsigma_low", ()): "nlo", ("nsigma_high", ()): "nhi", ("cdf", ()): "c0", sh("cdf", 1): "c1"}),
+            "  Definition code_perp_elem (qi w e0 e1 : T) : T := %s." % c(t["perp"], {("q_edges", ()): "e0", sh("q_edges", 1): "e1", ("qi", ()): "qi", ("w", ()): "w",
+                                                                                   ("fn", "sqrt"): "sqrtT", ("fn", "abs"): "absv O"}),
+            "  Definition code_apply (theory column : list T) : T := %s." % c(t["apply"], {("theory", ()): "(fst tw)", ("weight_matrix", ()): "(snd tw)"},
+                                                                              sums={"i": ("(combine theory column)", "tw")}),
+        ]
+    except (Untranslatable, nptrans.Untranslatable, OSError, SyntaxError) as exc:
+        note = "%s: %s" % (type(exc).__name__, exc)
+    lines = head + ["Definition translated : bool := %s." % ("true" if note is None else "false")]
+    if note:
+        lines.append("(* not translated: %s *)" % note.replace("*)", "* )"))
+        defs = ["  Definition code_edge_first (x0 x1 : T) : T := sub O x0 (mul O half (sub O x1 x0)).",
+                "  Definition code_edge_mid (a b : T) : T := mul O half (add O b a).",
+                "  Definition code_edge_last (xp xl : T) : T := add O xl (mul O half (sub O xl xp)).",
+                "  Definition code_cdf_arg (edge q sigma : T) : T := div O (sub O edge q) (mul O sqrt2 sigma).",
+                "  Definition code_pin_elem (qc q sigma nlo nhi c0 c1 : T) : T := sub O c1 c0.",
+                "  Definition code_perp_elem (qi w e0 e1 : T) : T := zero O.",
+                "  Definition code_apply (theory column : list T) : T := apply O theory column."]
+    lines += ["Section Code.", "  Context {T : Type} (O : Ops T).", "  Variable sqrtT : T -> T.", "  Variables half sqrt2 : T.", ""] + defs + ["End Code.", ""]
+    common.write_if_changed(os.path.join(common.THEORIES, "Gen", "C03_code.v"), "\n".join(lines))
+    return note
+
+
 def main(run):
     from sasmodels.resolution import Pinhole1D, Slit1D, Perfect1D, bin_edges
     from scipy.special import erf
     rng = random.Random(run.seed * 17 + 3)
     thorough = run.tier == "thorough"
-    run.prove(["C03/Property.v"])
+    note = []
+    run.prove(["C03/Property.v"], gen=lambda: note.append(gen()))
+    if note and note[0]:
+        run.notes.append("resolution.py not translated (%s): the source-text obligations C03_code_* are vacuous in this run, the behavioural tie decides" % note[0])
+    else:
+        run.notes.append("bin_edges, pinhole_resolution, _q_perp_weights and apply_resolution_matrix translated from the current resolution.py (Gen/C03_code.v, symbolic numpy evaluation) and proved equal to the model (C03_code_*)")
     cases, metas = [], []
     ecases, emetas = [], []
     stats = dict(pinhole=0, slit_length=0, slit_width=0, slit_mixed=0, zero_width=0, two_d=0, user_qcalc=0, direct_model=0)
